@@ -336,7 +336,9 @@ static void encode_imm_operation(struct instr *instrc) {
   if ((instrc->opd[0].reg == al && instrc->cons != NEG64BIT &&
        instrc->cons != MAX_UNSIGNED_32BIT) ||
       ((instrc->opd[0].reg & REG_MASK) == al &&
-       instrc->cons != MAX_UNSIGNED_32BIT &&
+       // (0xffffff80..0xffffffff become a sign-extended imm8, which the
+       // accumulator form does not have)
+       !IN_RANGE(instrc->cons, NEG80_32BIT, MAX_UNSIGNED_32BIT) &&
        IN_RANGE(instrc->cons, MAX_SIGNED_8BIT + 1, NEG64BIT - 1) &&
        !(IN_RANGE(instrc->cons, NEG80BIT, NEG64BIT - 1))))
     instrc->key++;
